@@ -204,9 +204,12 @@ theorem C16_merge_fails_only_in_group_passes (now : Int) (dst src : Db) (e : MEr
 
 /-- **C16 (merge reports success unless time stamps conflict)**: under the premises of `C16_merge_never_panics` (the two replicas
     agree on which UUIDs are entries and which are groups, every entry version carries a modification time, the destination is
-    a group with pairwise distinct UUIDs below it), whenever `merge` does not return `Ok` the error is one of the three that
-    report conflicting time stamps — an entry or a group that differs between the replicas under one and the same modification
-    time, or a history holding two versions under one time.  None of the look-ups of the group passes and of the deletion phase
+    a group with pairwise distinct UUIDs below it), whenever `merge` does not return `Ok` the error is one of the two that
+    report conflicting time stamps — a group whose own data differ between the replicas under one and the same modification
+    time (`GroupModificationTimeNotUpdated`), or a winning entry version whose own history holds two versions under one time
+    (`DuplicateHistoryEntries`).  `EntryModificationTimeNotUpdated` is never returned: `Entry::merge` reports it for two versions
+    that are equal up to time stamps under one modification time, and `merge_group` hands it only versions that differ (two
+    versions that differ under one modification time are left alone, silently).  None of the look-ups of the group passes and of the deletion phase
     (`find_group`, `find_entry`, `remove_node`: the model's `findGroup`, `findEntry`, `generic`) fails, none of the `unwrap()`s
     is reached, and the work queue drains: the path each `merge_group` frame uses designates a group whenever the frame may
     create or move nodes (it is looked up again after every nested call, see `C16_refreshed_path_designates_group`), paths of
@@ -217,16 +220,14 @@ theorem C16_merge_succeeds_unless_time_conflict {EI GI : List Nat} (now : Int) (
     (hkg : allG (fun x _ _ => x ∉ EI) dst.root) (hke : allE (fun e => e.d.uuid ∉ GI) dst.root) (hte : allE TimedE dst.root)
     (hse : allE (fun e => e.d.uuid ∈ EI ∧ e.d.uuid ∉ GI ∧ TimedE e) src.root) (hsg : allG (fun x _ _ => x ∈ GI ∧ x ∉ EI) src.root) :
     (∃ r, merge now dst src = .ok r)
-    ∨ merge now dst src = .error .entryMtimeNotUpdated
     ∨ merge now dst src = .error .groupMtimeNotUpdated
     ∨ merge now dst src = .error .duplicateHistory := by
   cases h : merge now dst src with
   | ok r => exact Or.inl ⟨r, rfl⟩
   | error e =>
     right
-    rcases merge_errors now dst src ⟨⟨hr, hn⟩, hkg, hke, hte⟩ ⟨hse, hsg⟩ e h with h1 | h1 | h1
+    rcases merge_errors now dst src ⟨⟨hr, hn⟩, hkg, hke, hte⟩ ⟨hse, hsg⟩ e h with h1 | h1
     · subst h1; exact Or.inl rfl
-    · subst h1; exact Or.inr (Or.inl rfl)
-    · subst h1; exact Or.inr (Or.inr rfl)
+    · subst h1; exact Or.inr rfl
 
 end Kp.Merge
